@@ -328,6 +328,11 @@ pub fn unpaired_ref<F: Fl>(ra: &MeanRef, rb: &MeanRef, conf: &Conf) -> Option<Un
     let dse = (dta + dtb) / (2.0 * se) * 1.01 + 6.0 * u * se;
     let cabs = cr.c.abs();
     let tol = 2.0 * (ra.tol_mean::<F>(0) + rb.tol_mean::<F>(0) + 2.0 * u * (diff.abs() + cabs * se) + cabs * dse + 8.0 * f64::EPSILON * (ra.mean.abs() + rb.mean.abs() + cabs * se)) + se * (dc_q + dc_dof) + f64::MIN_POSITIVE;
+    if tol.is_nan() || dof.is_nan() {
+        // the error model itself overflowed (a constant sample at the very top of the magnitude range makes the bound
+        // on its computed variance infinite): the reference cannot be resolved there
+        return None;
+    }
     Some(UnpairedRef { dof, c: cr.c, se, diff, tol })
 }
 
